@@ -344,3 +344,69 @@ def replay_type_tables(dtype):
         return False, "dtype and values preserved"
     finally:
         shutil.rmtree(d, ignore_errors=True)
+
+
+# ------------------------------------------------------------------------------------------------------
+# The hand-maintained copy of the IDL (cencoding.pyx `specs`: structure -> field name -> field id) against
+# parquet.thrift, in the source text and in the compiled module (the two can differ: the .c is generated).
+def specs_match_idl():
+    import ast as _ast
+    import re as _re
+    from vf.pyxlift import idl as IDLM
+    from vf import env
+    from fastparquet.cencoding import ThriftObject
+    res = _res("lemma.specs_match_idl[cencoding.specs]", ["cencoding.specs (source text)",
+                                                          "cencoding.ThriftObject.from_fields (compiled)"], {})
+    idl = IDLM.parse()
+    src = open(os.path.join(env.PKG, "cencoding.pyx")).read()
+    m = _re.search(r"^cdef dict specs = (\{.*?^\})", src, flags=_re.S | _re.M)
+    if not m:
+        res["status"] = "inconclusive"
+        res["inconclusive"].append("specs table not found in cencoding.pyx")
+        return res
+    specs = _ast.literal_eval(m.group(1))
+    n = 0
+    for sname, fields in specs.items():
+        st = idl["structs"].get(sname)
+        if st is None:
+            continue
+        want = {f["name"]: f["id"] for f in st["fields"]}
+        for fname, fid in fields.items():
+            n += 1
+            bad = None
+            if fname not in want:
+                bad = "%s.%s (id %d) is not a field of parquet.thrift" % (sname, fname, fid)
+            elif want[fname] != fid:
+                bad = "%s.%s has id %d in the table, %d in parquet.thrift" % (sname, fname, fid, want[fname])
+            if bad is None:
+                # the compiled table: a structure built by name stores the value under the IDL's id
+                try:
+                    got = list(ThriftObject.from_fields(sname, **{fname: 1}).contents)
+                except Exception as ex:
+                    got = None
+                if got is not None and got != [want[fname]]:
+                    bad = "compiled module: %s(%s=...) is stored under id %r, parquet.thrift says %d" % (
+                        sname, fname, got, want[fname])
+            if bad:
+                res["status"] = "violation"
+                res["findings"].append(dict(
+                    kind="contract", function="cencoding.specs", obligation="field ids follow parquet.thrift",
+                    detail=bad, shape=dict(harness="lemma.specs_match_idl", struct=sname, field=fname),
+                    cls="lemma:specs_match_idl",
+                    witness=dict(driver="py:vf.pyshim.lemmas:replay_specs", args=dict(struct=sname, field=fname))))
+                return res
+    res["reached"] = n
+    res["stats"]["steps"] = n
+    return res
+
+
+def replay_specs(struct, field):
+    from vf.pyxlift import idl as IDLM
+    from fastparquet.cencoding import ThriftObject
+    idl = IDLM.parse()
+    want = {f["name"]: f["id"] for f in idl["structs"][struct]["fields"]}.get(field)
+    got = list(ThriftObject.from_fields(struct, **{field: 1}).contents)
+    if got != [want]:
+        return True, "%s built with %s=... holds the value under field id %r; parquet.thrift declares id %r" % (
+            struct, field, got, want)
+    return False, "field id %r as declared" % want
